@@ -8,7 +8,8 @@ Open Scope Z_scope.
 Definition ex_prices : prices :=
   {| p_payload_byte := 2; p_send := 10; p_multisend_base := 10; p_multisend_delta := 5; p_ticker3 := 1000000; p_ticker4 := 100000;
      p_ticker5 := 10000; p_ticker6 := 1000; p_ticker7 := 100; p_create_token := 0; p_recreate_token := 10000; p_mint := 100;
-     p_burn := 100; p_lock := 100; p_redeem := 30; p_create_multisig := 100; p_edit_owner := 10000; p_failed := 1 |}.
+     p_burn := 100; p_lock := 100; p_redeem := 30; p_create_multisig := 100; p_edit_owner := 10000; p_failed := 1;
+     p_pcoin := 0; p_prc := 0; p_prb := 0 |}.
 
 (* accounts 11, 12, 13 with 100000 base coin each; block 50 *)
 Definition ex_state : st :=
